@@ -20,7 +20,7 @@ CHECKS = {
    "SQLite only; comparison normalises auto-index names, unique-index origin, column order."),
  "C04": ("exploration",
    "exhaustive enumeration of all foreign-key digraphs up to a size bound x table splits, planned by the real MySQL/PostgreSQL planners and replayed from statement text by a reference catalogue",
-   "All directed graphs with self loops over n<=3 tables (thorough: also all 65536 graphs on 4 tables) x every split of the tables into kept/created/dropped x edge modes between kept tables x {MySQL, PostgreSQL} x plan modes {unset, deferred, in-place, dump} x {one schema, tables spread over two schemas that share table names}: the change set comes from the real differ, the plan from the real planner (every change set is planned twice: identical plans required); a reference catalogue replays the statements from their text and requires: a table exists before any foreign key pointing at it is declared, no table is dropped while a foreign key of another table points at it, every table is created/dropped at most once, the final catalogue equals the desired one, and the planner neither fails, panics nor hangs.",
+   "All directed graphs with self loops over n<=3 tables (thorough: also all 65536 graphs on 4 tables) x every split of the tables into kept/created/dropped x edge modes between kept tables x {MySQL, PostgreSQL} x plan modes {unset, deferred, in-place, dump} x {one schema, tables spread over two schemas that share table names}: the change set comes from the real differ, the plan from the real planner (every change set is planned twice: identical plans required); a reference catalogue replays the statements from their text and requires: a table exists before any foreign key pointing at it is declared, no table is dropped while a foreign key of another table points at it, every table is created/dropped at most once, the final catalogue equals the desired one, and the planner neither fails, panics nor hangs. For n<=3 the kept tables' foreign keys are also retargeted (ModifyForeignKey: another target in the current state) and, in the two-schema layout, a schema that loses all its tables is dropped.",
    "n=4 covers all splits with added kept-kept edges only (stated in evidence); random larger graphs are not claimed."),
  "C05": ("exploration",
    "bounded-exhaustive enumeration of (populated current, desired) pairs executed on a real SQLite engine; rows read before/after by an independent connection",
@@ -28,7 +28,7 @@ CHECKS = {
    "SQLite only; value conversion on type changes is not judged."),
  "C06": ("model_checking",
    "explicit-state BFS over directory-writer histories with canonical-state dedup (invariant: Validate==nil) plus exhaustive single-edit tamper neighbourhood of every small reached state, judged by a reference materiality model",
-   "BFS to depth 3 (thorough 4) over the real writers (WritePlan x 6 formatters, WriteCheckpoint, CopyFiles; MemDir and LocalDir) checks that every reachable directory validates; for every small reached state and 8 hand-built ones (sum-ignored files, awkward names) every single edit - each byte of each file and of atlas.sum substituted/deleted/inserted, file add/remove/rename/swap/move-tail, sum line operations - is applied and the real Validate must fail with a checksum error exactly when the reference model says the edit is material. A BFS to depth 3 (thorough 4) over CLI histories {migrate new, migrate diff x 2 desired schemas, migrate hash, 5 hand edits} on a real directory (clock seam VERIF_NOW) checks that writer commands refuse and leave untouched a directory whose sum does not match, leave a valid directory otherwise, and that `migrate validate` / `migrate apply` accept the directory exactly when it was not edited since atlas last wrote or re-hashed it, in agreement with migrate.Validate(LocalDir) and with `schema inspect --url file://...` (absolute and relative). `migrate import` of 5 third-party formats x version sets (incl. flyway repeatable/baseline/undo files) must write a directory that validates.",
+   "BFS to depth 3 (thorough 4) over the real writers (WritePlan x 6 formatters, WriteCheckpoint, CopyFiles; MemDir and LocalDir) checks that every reachable directory validates; for every small reached state and 8 hand-built ones (sum-ignored files, awkward names) every single edit - each byte of each file and of atlas.sum substituted/deleted/inserted, file add/remove/rename/swap/move-tail, sum line operations, bytes moved between a name and its hash in a sum line - is applied and the real Validate must fail with a checksum error exactly when the reference model says the edit is material. A BFS to depth 3 (thorough 4) over CLI histories {migrate new, migrate diff x 2 desired schemas, migrate hash, 5 hand edits} on a real directory (clock seam VERIF_NOW) checks that writer commands refuse and leave untouched a directory whose sum does not match, leave a valid directory otherwise, and that `migrate validate` / `migrate apply` accept the directory exactly when it was not edited since atlas last wrote or re-hashed it, in agreement with migrate.Validate(LocalDir) and with `schema inspect --url file://...` (absolute and relative). `migrate import` of 5 third-party formats x version sets (incl. flyway repeatable/baseline/undo files) must write a directory that validates.",
    "third-party directory formats are covered in process only (their file names come from the wall clock); bodies of sum-ignored files and whitespace-only sum edits are immaterial by design and not judged."),
  "C07": ("exploration",
    "bounded-exhaustive enumeration of adversarial strings x slots x change kinds x formatters x indents x delimiters; each plan of the real planners is formatted, read back with the matching reader and dialect scanner and compared with the planned statements",
@@ -56,12 +56,12 @@ CHECKS = {
    "Recording driver/store in process, SQLite file for the CLI slice; timestamps and operator version excluded from 'untouched'."),
  "C13": ("fault_enumeration",
    "exhaustive enumeration of failing-statement positions x transaction modes x per-file directives x apply counts on the real CLI and a real SQLite file, judged by a reference model of each mode and by differential full dumps",
-   "`migrate apply`: 5 (thorough 12) directory shapes x a really failing statement at every position x tx-mode file/all/none x txmode directives on the failing or preceding file x apply count: the journal rows written by the statements and the revision rows, read by our own connection, must equal what the mode promises; after repairing the file the full dump must equal that of a run that never failed. `--dry-run` of migrate apply from 5 reached states x modes x counts x baseline/allow-dirty and of schema apply must leave dump and directory byte-identical. `schema apply`: 3 hand-written and 24 generated scenarios (every subset of {add table, add column, NOT NULL rebuild, unique index, drop table} holding a change that fails on the data, including plans of a single multi-statement change) x {default, file, none, dry-run}: a plan failing midway must leave the database unchanged in the default and file modes.",
+   "`migrate apply`: 5 (thorough 12) directory shapes x a really failing statement at every position x tx-mode file/all/none x txmode directives on the failing or preceding file x apply count: (also a constraint violation with the SQLite conflict clause OR ROLLBACK) the journal rows written by the statements and the revision rows, read by our own connection, must equal what the mode promises; after repairing the file the full dump must equal that of a run that never failed. `--dry-run` of migrate apply from 5 reached states x modes x counts x baseline/allow-dirty and of schema apply must leave dump and directory byte-identical. `schema apply`: 3 hand-written and 24 generated scenarios (every subset of {add table, add column, NOT NULL rebuild, unique index, drop table} holding a change that fails on the data, including plans of a single multi-statement change) x {default, file, none, dry-run}: a plan failing midway must leave the database unchanged in the default and file modes.",
    "SQLite file engine only; statement failure = a statement the engine really rejects."),
  "C14": ("fault_enumeration",
    "exhaustive enumeration of dev-database commands x dev states x failing-statement positions on the real CLI with a SQLite file as dev database; dev dump and directory bytes compared before/after",
-   "Commands migrate diff / validate / lint --latest N and schema apply|diff|inspect with SQL (and HCL) sources x dev state {empty, table with rows, view only, FTS/R-tree virtual tables only, table named sqlitefoo, thorough: table+trigger} x directory / schema-file shapes (creating tables, indexes, views and triggers) with, at every position (and nowhere), a statement the engine rejects or one it accepts but atlas cannot inspect (replay succeeds, reading the state back fails): a non-empty dev database must be refused and left byte-identical; an empty one must be handed back with no tables, indexes, views or triggers whether the command succeeded or failed; the migration directory must not be written by a replay (migrate diff may add one file and refresh the sum on success).",
-   "SQLite file as dev database; commands that do not use the dev database for a given source (HCL on SQLite) are only required to leave it untouched."),
+   "Commands migrate diff / validate / lint --latest N and schema apply|diff|inspect with SQL (and HCL) sources x dev state {empty, table with rows, view only, FTS/R-tree virtual tables only, table named sqlitefoo, thorough: table+trigger} x directory / schema-file shapes (creating tables, indexes, views and triggers) with, at every position (and nowhere), a statement the engine rejects or one it accepts but atlas cannot inspect (replay succeeds, reading the state back fails): a non-empty dev database must be refused and left byte-identical; an empty one must be handed back with no tables, indexes, views or triggers whether the command succeeded or failed; the migration directory must not be written by a replay (migrate diff may add one file and refresh the sum on success). Driver-level slice: the real MySQL and PostgreSQL drivers on a mocked connection with an in-memory catalogue as Inspector/PlanApplier, 162 (catalogue, binding, replay effect) cases: Snapshot must refuse a scope that holds a table and the restore function must hand the catalogue back as it was.",
+   "SQLite file as dev database for the CLI slice (MySQL/PostgreSQL only at driver level, catalogue mocked); commands that do not use the dev database for a given source (HCL on SQLite) are only required to leave it untouched."),
  "C15": ("exploration",
    "bounded-exhaustive enumeration over the exported type registries x parameter grid and over the differ universe states, each pushed through MarshalHCL/EvalHCL of the real codecs and compared by differ, formatted types, own structural comparison and byte fixpoint",
    "For the MySQL, PostgreSQL and SQLite codecs: every registered type spec x parameter grid (size, precision/scale, time precision, unsigned, enum/set values, PostgreSQL arrays) must be a FormatType/ParseType fixpoint and survive MarshalHCL -> EvalHCLBytes as a column type with empty diff both ways and identical bytes on re-marshal; every state of the differ universe (base, +1 edit or equivalence; thorough +2 edits) must round-trip with empty diff both ways, equal element lists / attribute sets / formatted types by our own comparison, and byte-identical re-marshal; a type whose bare spelling means 'unlimited' must not collide with a parameterised spelling.",
